@@ -99,7 +99,12 @@ class TimeoutDriver:
             return lambda live: len(live) - 1
         return lambda live: self.rnd.randrange(len(live))
 
-    def _settle(self):
+    def _settle(self, hold=False):
+        if hold:
+            # run everything except the caller task's own steps: its wake-up stays scheduled
+            caller = self.caller
+            self.loop.quiesce_where(lambda h: getattr(h._callback, "__self__", None) is not caller)
+            return self._obs()
         self.loop.policy = self._policy()
         try:
             self.loop.quiesce()
@@ -135,12 +140,14 @@ class TimeoutDriver:
                 self.gate.set_result(args[0])
             self.now += 1
             self.loop.advance(T0 + self.now)
-            return self._settle()
+            return self._settle(hold=args[1])
         if name == "FnFinish":
             self.gate.set_result(args[0])
-            return self._settle()
+            return self._settle(hold=args[1])
         if name == "CallerCancel":
             self.caller.cancel()
+            return self._settle()
+        if name == "Release":
             return self._settle()
         raise ValueError(name)
 
@@ -153,11 +160,14 @@ def run(rep, work, tier, seed):
     c = dict(MaxT=5, MaxDeadline=3, Bug="none") if tier == "quick" else dict(MaxT=7, MaxDeadline=4, Bug="none")
     rep.extra["constants"] = c
     leg_m(rep, work, SPEC, f"mc_{tier}", cfg_text(c, spec="Spec", invariants=INVS, properties=["Termination"]),
-          expect_actions=INTERNAL + ["Tick", "FnFinish", "CallerCancel"])
+          expect_actions=INTERNAL + ["Tick", "FnFinish", "CallerCancel", "Release"])
     if tier == "thorough":
         leg_mutant(rep, work, SPEC, "mutant_only_exception",
                    cfg_text(dict(MaxT=5, MaxDeadline=2, Bug="only_exception"), spec="Spec", invariants=INVS,
                             properties=["Termination"]), ["NoCallbackErrors", "temporal", "SelfCancelSeen", "OutcomeRight"])
+        leg_mutant(rep, work, SPEC, "mutant_late_cancel_swallowed",
+                   cfg_text(dict(MaxT=5, MaxDeadline=2, Bug="late_cancel_swallowed"), spec="Spec", invariants=INVS),
+                   ["CallerCancelPropagates"])
         leg_mutant(rep, work, SPEC, "mutant_no_task_cancel",
                    cfg_text(dict(MaxT=5, MaxDeadline=2, Bug="no_task_cancel"), spec="Spec", invariants=INVS),
                    ["NothingLeft", "OutcomeRight", "CallerCancelPropagates"])
